@@ -186,3 +186,387 @@ def export_decode(text, root_label='VROOT'):
 
 
 export_decode.last_info = []
+
+
+# ============================================================ brackets ========
+
+PAREN_NAMES = {"(": "LRB", ")": "RRB", "[": "LSB", "]": "RSB",
+               "{": "LCB", "}": "RCB", "-LRB-": "LRB", "-RRB-": "RRB",
+               "-LSB-": "LSB", "-RSB-": "RSB", "-LCB-": "LCB", "-RCB-": "RCB"}
+
+
+def replace_parens(s):
+    """The documented name mapping (applied as substring replacement, longest
+    keys first so that -LRB- is not taken apart)."""
+    if s is None:
+        return s
+    for k in sorted(PAREN_NAMES, key=len, reverse=True):
+        s = s.replace(k, PAREN_NAMES[k])
+    return s
+
+
+def brackets_encode(treebank, rng=None, empty_root=False, layout='line',
+                    label_of=None, leaf_text=None):
+    """PTB-style bracketing.  layout: 'line' (one tree per line, no extra
+    space), 'pretty' (indented, multi-line), 'random' (random whitespace
+    wherever the format allows it).  label_of(node) -> label text."""
+    label_of = label_of or (lambda n: n.label)
+    leaf_text = leaf_text or (lambda t: t.word)
+
+    def ws(kind):
+        if layout == 'line' or rng is None:
+            return ' ' if kind == 'req' else ''
+        if layout == 'pretty':
+            return {'req': ' ', 'opt': '', 'nl': '\n  '}[kind]
+        pool = [' ', '  ', '\n', '\t', ' \n ', '\r\n']
+        if kind == 'req':
+            return rng.choice(pool)
+        return rng.choice(['', '', ''] + pool)
+
+    def enc(n, is_root):
+        if not n.children:
+            return '(' + ws('opt') + label_of(n) + ws('req') + leaf_text(n) \
+                + ws('opt') + ')'
+        lab = '' if (is_root and empty_root) else label_of(n)
+        body = ''.join(ws('nl' if layout == 'pretty' else 'opt') + enc(k, False)
+                       for k in n.kids())
+        return '(' + (ws('opt') + lab if lab else '') + body + ws('opt') + ')'
+    out = []
+    for spec in treebank:
+        out.append(enc(model.from_spec(spec['root']), True))
+    sep = '\n' if layout != 'random' or rng is None else rng.choice(['\n', '\n\n', ' \n'])
+    lead = '' if layout != 'random' or rng is None else rng.choice(['', '\n', '  '])
+    return lead + sep.join(out) + '\n'
+
+
+class BracketError(ValueError):
+    pass
+
+
+def bracket_tokens(text):
+    """-> list of ('(' | ')' | 'WS' | 'TOK', value)"""
+    out = []
+    i = 0
+    n = len(text)
+    while i < n:
+        c = text[i]
+        if c in '()':
+            out.append((c, c))
+            i += 1
+        elif c.isspace():
+            j = i
+            while j < n and text[j].isspace():
+                j += 1
+            out.append(('WS', text[i:j]))
+            i = j
+        else:
+            j = i
+            while j < n and not text[j].isspace() and text[j] not in '()':
+                j += 1
+            out.append(('TOK', text[i:j]))
+            i = j
+    return out
+
+
+def brackets_decode(text, first_sid=1, root_default='VROOT', disco=False):
+    """Strict decoder.  Grammar:  tree := '(' label? node+ ')' ;
+    node := '(' label WS word ')' | '(' label node+ ')'.
+    Tokens are numbered left to right (disco=False) or carry their 1-based
+    position as the word (disco=True; the sentence follows the tree after a
+    tab up to the end of the line)."""
+    if disco:
+        specs = []
+        sid = first_sid
+        for line in text.split('\n'):
+            if line.strip() == '':
+                continue
+            if '\t' not in line:
+                raise BracketError('no tab-separated sentence: %r' % line[:60])
+            tree_txt, sent = line.split('\t', 1)
+            words = sent.split(' ') if sent != '' else []
+            words = [w for w in words if w != '']
+            sub = brackets_decode(tree_txt, sid, root_default)
+            if len(sub) != 1:
+                raise BracketError('%d trees on one line' % len(sub))
+            toks = [n for n in _walk(sub[0]['root']) if 'c' not in n]
+            idx = sorted(int(t['w']) for t in toks)
+            if idx != list(range(1, len(words) + 1)):
+                raise BracketError('indices %r do not cover 1..%d'
+                                   % (idx[:10], len(words)))
+            for t in toks:
+                t['n'] = int(t['w'])
+                t['w'] = words[t['n'] - 1]
+            specs.append(sub[0])
+            sid += 1
+        return specs
+    toks = [t for t in bracket_tokens(text)]
+    pos = [0]
+
+    def peek(skip_ws=True):
+        while skip_ws and pos[0] < len(toks) and toks[pos[0]][0] == 'WS':
+            pos[0] += 1
+        return toks[pos[0]] if pos[0] < len(toks) else None
+
+    def take():
+        t = toks[pos[0]]
+        pos[0] += 1
+        return t
+
+    counter = [0]
+
+    def node(top):
+        t = peek()
+        if t is None or t[0] != '(':
+            raise BracketError('expected (')
+        take()
+        t = peek()
+        label = None
+        if t is not None and t[0] == 'TOK':
+            label = take()[1]
+        elif not top:
+            raise BracketError('missing label')
+        t = peek(skip_ws=False)
+        if t is not None and t[0] == 'WS' and label is not None:
+            take()
+            t2 = peek(skip_ws=False)
+            if t2 is not None and t2[0] == 'TOK':
+                word = take()[1]
+                t3 = peek()
+                if t3 is None or t3[0] != ')':
+                    raise BracketError('expected ) after word')
+                take()
+                counter[0] += 1
+                return {'n': counter[0], 'w': word, 'p': label, 'e': '--',
+                        'm': '--', 'lm': None}
+        kids = []
+        while True:
+            t = peek()
+            if t is None:
+                raise BracketError('unterminated group')
+            if t[0] == ')':
+                take()
+                break
+            if t[0] == 'TOK':
+                raise BracketError('stray token %r' % t[1])
+            kids.append(node(False))
+        if not kids:
+            raise BracketError('constituent without children')
+        return {'l': label if label is not None else root_default, 'e': '--',
+                'c': kids}
+    specs = []
+    sid = first_sid
+    while peek() is not None:
+        if peek()[0] != '(':
+            raise BracketError('material outside a tree: %r' % (peek()[1],))
+        counter[0] = 0
+        root = node(True)
+        if 'c' not in root:
+            raise BracketError('bare preterminal at top level')
+        specs.append({'sid': sid, 'root': root})
+        sid += 1
+    return specs
+
+
+def _walk(node):
+    yield node
+    for c in node.get('c', []):
+        for x in _walk(c):
+            yield x
+
+
+def discobrackets_encode(treebank, label_of=None):
+    label_of = label_of or (lambda n: n.label)
+
+    def enc(n):
+        if not n.children:
+            return '(%s %d)' % (label_of(n), n.num)
+        return '(' + label_of(n) + ''.join(enc(k) for k in n.kids()) + ')'
+    out = []
+    for spec in treebank:
+        m = model.from_spec(spec['root'])
+        out.append(enc(m) + '\t' + ' '.join(t.word for t in m.toks()))
+    return '\n'.join(out) + '\n'
+
+
+# ============================================================ TIGER-XML =======
+
+def _xml_escape(s, rng=None):
+    s = s.replace('&', '&amp;').replace('<', '&lt;').replace('>', '&gt;')
+    return s
+
+
+def _attr(s, rng=None):
+    s = _xml_escape(s)
+    if rng is not None and rng.random() < 0.3 and "'" not in s:
+        return "'" + s.replace('"', '&quot;') + "'" if False else \
+            "'" + s + "'"
+    return '"' + s.replace('"', '&quot;') + '"'
+
+
+def tigerxml_encode(treebank, rng=None, sid_format='s%d', encoding='utf-8',
+                    with_vroot=True, secedges=False, omit_optional=False,
+                    head=True):
+    """TIGER-XML.  with rng: attribute order, <nt> order and edge order are
+    shuffled, ids get a per-corpus prefix.  The root constituent is written
+    as a <nt> like any other when with_vroot (label from the spec), otherwise
+    the root is left out and its single child becomes the top node."""
+    out = []
+    if encoding:
+        out.append('<?xml version="1.0" encoding="%s" standalone="yes"?>'
+                   % encoding)
+    out.append('<corpus id="vt">')
+    if head:
+        out.append('<head><meta><name>vt</name></meta></head>')
+    out.append('<body>')
+    for spec in treebank:
+        sid = sid_format % spec['sid']
+        root = model.from_spec(spec['root'])
+        pre = 's%d_' % spec['sid']
+        ids = {}
+        for t in root.toks():
+            ids[id(t)] = '%s%d' % (pre, t.num)
+        cons = [n for n in root.nodes() if n.children]
+        if not with_vroot:
+            if len(root.children) != 1 or not root.children[0].children:
+                raise ValueError('cannot drop the root of this tree')
+            cons = [n for n in cons if n is not root]
+        numbered = sorted(cons, key=lambda n: (n.height(), n.first()))
+        for i, n in enumerate(numbered):
+            ids[id(n)] = '%s%d' % (pre, 500 + i)
+        top = root if with_vroot else root.children[0]
+        out.append('<s id=%s>' % _attr(sid))
+        out.append('<graph root=%s>' % _attr(ids[id(top)]))
+        out.append('  <terminals>')
+        for t in root.toks():
+            attrs = [('id', ids[id(t)]), ('word', t.word), ('pos', t.label)]
+            if not (omit_optional and rng and rng.random() < 0.5):
+                attrs.append(('lemma', t.lemma if t.lemma is not None else '--'))
+            if not (omit_optional and rng and rng.random() < 0.5):
+                attrs.append(('morph', t.morph if t.morph is not None else '--'))
+            if rng is not None:
+                rng.shuffle(attrs)
+            body = ' '.join('%s=%s' % (k, _attr(v, rng)) for k, v in attrs)
+            if secedges and rng and cons and rng.random() < 0.2:
+                out.append('    <t %s><secedge label="SB" idref=%s /></t>'
+                           % (body, _attr(ids[id(rng.choice(numbered))])))
+            else:
+                out.append('    <t %s />' % body)
+        out.append('  </terminals>')
+        out.append('  <nonterminals>')
+        order = list(numbered)
+        if rng is not None:
+            rng.shuffle(order)
+        for n in order:
+            attrs = [('id', ids[id(n)]), ('cat', n.label)]
+            if rng is not None:
+                rng.shuffle(attrs)
+            out.append('    <nt %s>' % ' '.join('%s=%s' % (k, _attr(v))
+                                                for k, v in attrs))
+            kids = n.kids()
+            if rng is not None:
+                rng.shuffle(kids)
+            for k in kids:
+                ea = [('label', k.edge if k.edge is not None else '--'),
+                      ('idref', ids[id(k)])]
+                if rng is not None:
+                    rng.shuffle(ea)
+                out.append('      <edge %s />'
+                           % ' '.join('%s=%s' % (a, _attr(v)) for a, v in ea))
+            if secedges and rng and rng.random() < 0.2:
+                out.append('      <secedge label="OA" idref=%s />'
+                           % _attr(ids[id(rng.choice(numbered))]))
+            out.append('    </nt>')
+        out.append('  </nonterminals>')
+        out.append('</graph>')
+        out.append('</s>')
+    out.append('</body>')
+    out.append('</corpus>')
+    return '\n'.join(out) + '\n'
+
+
+def tigerxml_decode(data, root_label='VROOT'):
+    """data: bytes or str.  Returns specs; the top node is the graph's only
+    parentless node; when its label is not root_label a virtual root is put
+    on top (what the format's users expect from TIGER files)."""
+    root = ET.fromstring(data)
+    body = root.find('body')
+    if body is None:
+        raise ValueError('no <body>')
+    specs = []
+    for s in body.findall('s'):
+        sid_txt = s.get('id')
+        nums = re.findall(r'\d+', sid_txt or '')
+        if not nums:
+            raise ValueError('sentence id without number: %r' % sid_txt)
+        graph = s.find('graph')
+        nodes = {}
+        n = 0
+        for t in graph.find('terminals').findall('t'):
+            n += 1
+            if t.get('id') in nodes:
+                raise ValueError('duplicate id %r' % t.get('id'))
+            nodes[t.get('id')] = {'n': n, 'w': t.get('word'), 'p': t.get('pos'),
+                                  'e': '--', 'm': t.get('morph'),
+                                  'lm': t.get('lemma')}
+        nts = graph.find('nonterminals').findall('nt')
+        for nt in nts:
+            if nt.get('id') in nodes:
+                raise ValueError('duplicate id %r' % nt.get('id'))
+            nodes[nt.get('id')] = {'l': nt.get('cat'), 'e': '--', 'c': []}
+        has_parent = set()
+        for nt in nts:
+            me = nodes[nt.get('id')]
+            for e in nt.findall('edge'):
+                ref = e.get('idref')
+                if ref not in nodes:
+                    raise ValueError('idref %r does not resolve' % ref)
+                if ref in has_parent:
+                    raise ValueError('node %r has two parents' % ref)
+                has_parent.add(ref)
+                nodes[ref]['e'] = e.get('label')
+                me['c'].append(nodes[ref])
+        tops = [k for k in nodes if k not in has_parent]
+        if len(tops) != 1:
+            raise ValueError('%d parentless nodes' % len(tops))
+        top = nodes[tops[0]]
+        for k, v in nodes.items():
+            if 'c' in v and not v['c']:
+                raise ValueError('nonterminal %r without children' % k)
+        if 'c' not in top or top['l'] != root_label:
+            top = {'l': root_label, 'e': '--', 'c': [top]}
+        if len(list(_walk(top))) < len(nodes):
+            raise ValueError('unreachable nodes (cycle)')
+        specs.append({'sid': int(nums[-1]), 'root': top})
+    return specs
+
+
+# ============================================================ terminals =======
+
+def terminals_decode(text, one=False, pos=False):
+    """-> list of token lists [(word, pos|None)]"""
+    sents = []
+    if one:
+        cur = []
+        for ln in text.split('\n')[:-1] if text.endswith('\n') else text.split('\n'):
+            if ln == '':
+                sents.append(cur)
+                cur = []
+            else:
+                if pos:
+                    w, p = ln.split('\t')
+                    cur.append((w, p))
+                else:
+                    cur.append((ln, None))
+        if cur:
+            raise ValueError('unterminated sentence in one-per-line output')
+        return sents
+    lines = text.split('\n')
+    if lines and lines[-1] == '':
+        lines = lines[:-1]
+    for ln in lines:
+        toks = [x for x in ln.split(' ') if x != '']
+        if pos:
+            sents.append([tuple(x.rsplit('/', 1)) for x in toks])
+        else:
+            sents.append([(x, None) for x in toks])
+    return sents
